@@ -1,5 +1,11 @@
 """Per-property configuration: which units decide it, the level claimed, what is not covered."""
 PROPS = {
+    "C01": {
+        "level": "proof",
+        "units": [{"kind": "dfa", "name": "20 generated validators == RFC 3986/3987 productions"}],
+        "assumptions": ["construction routes other than the validating automaton (generated new/TryFrom/FromStr/serde wrappers, from_vec) are dependency output or thin wrappers: listed, not proved"],
+        "not_covered": ["TryFrom/FromStr/serde routes (C14)", "IriBuf::from_vec / IriRefBuf::from_vec UTF-8 step (String::from_utf8 is std)", "text preservation by the generated `new` (transmute)"],
+    },
     "C02": {
         "level": "proof",
         "units": [{"kind": "verus", "name": "decomposition scanners + accessors vs RFC 3986 App. B spec"}],
@@ -23,6 +29,12 @@ PROPS = {
 }
 
 MANIFEST_TEXT = {
+    "C01": {
+        "technique": "Verus proof that each macro-generated validate (expanded from the current tree) accepts exactly the language of a reference DFA compiled from an independent RFC ABNF transcription",
+        "level_text": "Deductive proof over all strings of all lengths for each of the 20 validated types: the expanded `validate` of the current tree (whatever grammar.abnf or cached *.aut.cbor produced it) satisfies `ensures r == lang_X(input@)` where lang_X is the run of a minimal DFA compiled from /verif/spec/rfc398{6,7}.abnf; the loop invariant carries a code-state -> reference-state map that Verus checks. A mismatch yields the shortest distinguishing string, replayed on the real constructor.",
+        "level_note": "Trusted: macro expansion = compiled code, slice-cursor rewrite R7, my ABNF transcription and DFA compiler, generated wrappers around validate. Not covered: TryFrom/FromStr/serde routes, from_vec UTF-8 step.",
+        "design_ref": "DESIGN.md section 5 C01",
+    },
     "C02": {
         "technique": "Verus contracts on the real scanners and accessors (postcondition = RFC 3986 App. B spec function)",
         "level_text": "Deductive proof, all inputs, no bound: every scanner of common/parse.rs and every component accessor of RiRefImpl/RiImpl carries a postcondition equating its result with the RFC 3986 Appendix B decomposition (spec function rfc_parts); Verus discharges every obligation on the current source.",
@@ -41,7 +53,6 @@ MANIFEST_TEXT = {
 }
 
 NOT_APPLICABLE = {
-    "C01": "check not built yet in this round (planned: Verus proof of the generated DFAs against reference DFAs)",
     "C04": "check not built yet",
     "C05": "check not built yet",
     "C06": "check not built yet",
